@@ -54,8 +54,8 @@ def check_one(src):
         if "".join(sc) != src:
             return ("cdd.shared.cst_utils:cst_scanner", "ensures[0] joined(result) == source fails: %r" % (sc,))
         nodes = cdd.shared.cst.cst_parse(src)
-    except Exception as ex:  # the property is partial correctness + totality is C11's business
-        return ("raise", "%s: %s" % (type(ex).__name__, ex))
+    except Exception as ex:  # "for every string whatsoever": an exception means no node list reproduces the input
+        return ("cdd.shared.cst:cst_parse", "raised %s: %s" % (type(ex).__name__, str(ex)[:120]))
     bad = property_holds(src, nodes)
     if bad:
         return ("cdd.shared.cst:cst_parse", bad)
@@ -157,6 +157,8 @@ def main(tier, write_baseline=False):
         ]
     )
     refuted = e1.run_contracts(run, "contracts.C09")
+    # totality of the helper the parser calls on every statement (discharges "get_construct_name is a total function")
+    refuted += e1.run_contracts(run, "contracts.C09_total")
 
     def struct_replay(_name):
         # the clause the decorator / wrapper side conditions carry: the contracts of cst_parse on real inputs
